@@ -14,6 +14,7 @@ package api
 
 import (
 	"fmt"
+	"github.com/gofrs/uuid"
 	"net/url"
 	"strings"
 	"sync"
@@ -45,6 +46,10 @@ func c17Tuples() map[string]*ketoapi.RelationTuple {
 		"unknown-ns":     axID("zz", "a", "r", "x"),
 		"unknown-sub-ns": axSet("n1", "a", "r", "zz", "g", "m"),
 		"empty-strings":  axID("n1", "", "", ""),
+		// relations that no configuration declares and no statement text contains (see the splice monitor); the
+		// second one carries the characters that end an SQL string literal
+		"marker-relations":    axSet("n1", "a", "neverRel", "n1", "g", "neverSetRel"),
+		"quoted-set-relation": axSet("n1", "a", "r", "n1", "g", "never'Set\"Rel;--"),
 	}
 }
 
@@ -65,7 +70,7 @@ func c17Grammar() []*c17Req {
 		return "OK " + s
 	}
 	T := c17Tuples()
-	order := []string{"stored", "stored-set", "known-names", "never-seen", "never-seen-set", "ghost", "unknown-ns", "unknown-sub-ns", "empty-strings"}
+	order := []string{"stored", "stored-set", "known-names", "never-seen", "never-seen-set", "ghost", "unknown-ns", "unknown-sub-ns", "empty-strings", "marker-relations", "quoted-set-relation"}
 
 	// check
 	for _, n := range order {
@@ -253,7 +258,10 @@ var c17Writes = []struct {
 	}},
 }
 
+var c17UnseenTenant = uuid.Must(uuid.FromString("dddddddd-dddd-4ddd-8ddd-dddddddddddd"))
+
 func c17Build(s *apih.Server, state string) {
+	state = strings.TrimSuffix(state, "@unseen-tenant")
 	if i := strings.Index(state, "+"); i > 0 {
 		c17Build(s, state[:i])
 		for _, w := range c17Writes {
@@ -296,7 +304,7 @@ type c17Cand struct {
 func TestC17(t *testing.T) {
 	run := ev.New("C17", "exploration")
 	reqs := c17Grammar()
-	pool := &axServerPool{t: t}
+	pool := &axServerPool{t: t, multi: true} // (multi-tenant seam installed; requests without a network header use the default network)
 
 	var mu sync.Mutex
 	var cands []c17Cand
@@ -307,6 +315,9 @@ func TestC17(t *testing.T) {
 	// worker's database currently holds exactly that state.
 	runSeq := func(s *apih.Server, state string, seq []int, collect func(c17Cand)) (dirty bool) {
 		c := s.Client()
+		if strings.HasSuffix(state, "@unseen-tenant") {
+			c = s.ClientFor(c17UnseenTenant)
+		}
 		before := s.Dump()
 		s.Tap.StartLog()
 		var outs []string
@@ -337,6 +348,13 @@ func TestC17(t *testing.T) {
 			if strings.Contains(e.SQL, "sqlite_master") || strings.HasPrefix(e.SQL, `SELECT * FROM "`) {
 				harness++
 				continue
+			}
+			// splice monitor: every string of the grammar that starts with "never" or "ghost" reaches the database
+			// as a bound argument; finding one inside the TEXT of a statement means a request string was spliced
+			// into SQL (no working exploit is needed to see that)
+			if strings.Contains(e.SQL, "never") || strings.Contains(e.SQL, "ghost") {
+				collect(c17Cand{Sig: "request-string-spliced-into-sql-text", What: fmt.Sprintf("while serving %v on state %q keto issued a statement whose TEXT contains a string of the request: %.300q", names, state, e.SQL), State: state, Seq: seq, Extra: map[string]any{"statement": e.SQL}})
+				break
 			}
 			if e.IsWrite() {
 				// attribute to the request during which the statement was logged
@@ -469,6 +487,13 @@ func TestC17(t *testing.T) {
 			}
 		}
 	}
+	// a tenant nobody has written to: the same single requests under a network id that exists nowhere in the
+	// database (a multi-tenant deployment derives the network from the request); state "small@unseen-tenant"
+	unseenJobs := 0
+	for i := range reqs {
+		jobs = append(jobs, job{"small@unseen-tenant", []int{i}})
+		unseenJobs++
+	}
 	// thorough: additionally every sequence of length 3 over one representative
 	// request per (kind, transport) that mentions never-seen names where possible
 	len3 := 0
@@ -540,7 +565,9 @@ func TestC17(t *testing.T) {
 		}
 		ok := true
 		for rep := 0; rep < 2 && ok; rep++ {
-			s := pool.get(0)
+			// a FRESH server for every confirmation: state a process keeps about what it has already done (caches,
+			// once-only provisioning) must not make a real finding look unstable
+			s := axNewServer(t, true)
 			c17Build(s, cd.State)
 			hit := false
 			runSeq(s, cd.State, cd.Seq, func(c c17Cand) { hit = hit || c.Sig == cd.Sig })
@@ -577,24 +604,25 @@ func TestC17(t *testing.T) {
 	}
 	run.Sample(map[string]any{"grammar": names})
 	run.Finish(map[string]any{
-		"evaluations":              int(evals.Load()),
-		"distinct_nontrivial":      len(nontrivial),
-		"rule":                     "one evaluation = (database state in {empty, small, mappings}, sequence of 1 or 2 requests of the read/syntax grammar); the complete product states x (R + R^2) is enumerated; non-trivial = the sequence made keto issue at least one SQL statement (measured through the driver wrapper), distinct by (state, request names)",
-		"grammar_size":             len(reqs),
-		"states":                   len(c17States),
-		"sequences_len1":           len(c17States) * len(reqs),
-		"sequences_len2":           len(c17States) * len(reqs) * len(reqs),
-		"all_pairs":                pairsAll,
-		"sequences_after_a_write":  afterWrite,
-		"write_preludes":           len(c17Writes),
-		"requests":                 int(requests.Load()),
-		"sequences_reaching_db":    int(reachDB.Load()),
-		"sql_statements_monitored": int(statements.Load()),
-		"state_rebuilds":           int(rebuilds.Load()),
-		"candidate_signatures":     sigCount,
-		"unstable_candidates":      unstable,
-		"exhaustive":               !timedOut.Load() && unstable == 0,
-		"workers":                  axWorkers(),
+		"evaluations":                  int(evals.Load()),
+		"distinct_nontrivial":          len(nontrivial),
+		"rule":                         "one evaluation = (database state in {empty, small, mappings}, sequence of 1 or 2 requests of the read/syntax grammar); the complete product states x (R + R^2) is enumerated; non-trivial = the sequence made keto issue at least one SQL statement (measured through the driver wrapper), distinct by (state, request names)",
+		"grammar_size":                 len(reqs),
+		"states":                       len(c17States),
+		"sequences_len1":               len(c17States) * len(reqs),
+		"sequences_len2":               len(c17States) * len(reqs) * len(reqs),
+		"all_pairs":                    pairsAll,
+		"sequences_after_a_write":      afterWrite,
+		"requests_of_an_unseen_tenant": unseenJobs,
+		"write_preludes":               len(c17Writes),
+		"requests":                     int(requests.Load()),
+		"sequences_reaching_db":        int(reachDB.Load()),
+		"sql_statements_monitored":     int(statements.Load()),
+		"state_rebuilds":               int(rebuilds.Load()),
+		"candidate_signatures":         sigCount,
+		"unstable_candidates":          unstable,
+		"exhaustive":                   !timedOut.Load() && unstable == 0,
+		"workers":                      axWorkers(),
 	})
 }
 
